@@ -128,7 +128,7 @@ SrcTag(s) == IF s = "users" THEN "r" ELSE "q"
 
 FreshVars == [nm \in Names |-> [seen |-> FALSE, hasPre |-> FALSE, row |-> NoVal, hasPost |-> FALSE, tok |-> NoVal]]
 IdleInst  == [pc |-> "idle", sc |-> 0, steps |-> <<>>, pos |-> 0, vs |-> FreshVars,
-              pend |-> [val |-> NoVal, at |-> "", status |-> 0, k |-> 0, row |-> NoVal],
+              pend |-> [val |-> NoVal, at |-> "", status |-> 0, k |-> 0, row |-> NoVal, trunc |-> FALSE],
               lastSleep |-> 0, failed |-> FALSE, shot |-> 0]
 
 InitSt(c) ==
@@ -207,7 +207,7 @@ PreF(s, i) ==
         s2   == [s1 EXCEPT !.inst[i].vs = vs1]
     IN IF ~pre[1] \/ ~rnd[1] THEN FailF(s2, i, 0)
        ELSE [s2 EXCEPT !.inst[i].pc = "send",
-                       !.inst[i].pend = [val |-> rnd[2], at |-> d.use.at, status |-> 0, k |-> 0,
+                       !.inst[i].pend = [val |-> rnd[2], at |-> d.use.at, status |-> 0, k |-> 0, trunc |-> FALSE,
                                          row |-> IF pre[2] THEN pre[3] ELSE NoVal]]
 
 \* the request reaches the target; the script decides what the peer does to arrival number k
@@ -221,7 +221,9 @@ SendF(s, i) ==
     IN IF hit /\ sc.kind = "transport" THEN FailF(s1, i, 0)
        ELSE [s1 EXCEPT !.inst[i].pc = "post",
                        !.inst[i].pend.status = IF hit /\ sc.kind = "status" THEN 418 ELSE 200,
-                       !.inst[i].pend.k = k1]
+                       !.inst[i].pend.k = k1,
+                       \* "trunc": status and headers arrive, the body ends before its Content-Length
+                       !.inst[i].pend.trunc = (hit /\ sc.kind = "trunc")]
 
 \* postprocessors in configured order (capture, then assert/response), Report, Sleep
 PostF(s, i) ==
@@ -235,7 +237,9 @@ PostF(s, i) ==
                  [] d.cap = "jsonnum" -> Val("n", me.pend.k)     \* the JSON number 1000000 + k
         assertFails == d.assert /\ me.pend.status # 200
         last == me.pos >= Len(me.steps)
-    IN IF assertFails THEN FailF(s, i, me.pend.status)
+    \* the body is read (or drained) before any postprocessor runs: a body that cannot be read fails the step -
+    \* with or without postprocessors - and the sample keeps the status that was received
+    IN IF me.pend.trunc \/ assertFails THEN FailF(s, i, me.pend.status)
        ELSE [s EXCEPT !.samples = Append(@, Sample(s, i, me.pend.status, FALSE)),
                       !.inst[i] = [@ EXCEPT !.vs[nm].hasPost = TRUE, !.vs[nm].tok = tok,
                                             !.lastSleep = Step(s, i).sleep,
